@@ -96,3 +96,6 @@ func VerifFlatFileObjectReader(v VerifFlatFileObject) io.Reader {
 		FlatFileDataForkHeader:        v.DataHeader,
 	}
 }
+
+// VerifKeepaliveHandler runs the idle-time ticker loop (started by ListenAndServe in production) until ctx is done.
+func (s *Server) VerifKeepaliveHandler(ctx context.Context) { s.keepaliveHandler(ctx) }
